@@ -465,7 +465,14 @@ type e2Script struct {
 	proposeAt int    // 0: inside EnterRound; >0: as a later harness event
 	dataID    string
 
+	dupPrevote bool   // answer a later ConsiderProposedBlocks with a second, different hash (duplicate answer) ...
+	dupRule    e2Rule // ... once the first prevote is known to have been emitted
+	propose2   bool   // send a second Proposal once the first one is known to have been emitted
+
 	// state
+	firstPv                                 string
+	pvAnswered, pvEffectSeen, dupGiven      bool
+	proposalEffectSeen, proposed2           bool
 	considerCalls, chooseCalls, decideCalls int
 	pvState                                 int
 	held                                    bool
@@ -611,6 +618,15 @@ func (s *e2Strategy) ConsiderProposedBlocks(ctx context.Context, phs []tmconsens
 			answer = true
 			hash = sc.prevoteRule.prevote(phs)
 			sc.pvState = e2PvConsiderAnswered
+			sc.pvAnswered, sc.firstPv = true, hash
+		} else if sc.dupPrevote && sc.pvAnswered && sc.pvEffectSeen && !sc.dupGiven {
+			// a duplicate answer: the first one has been consumed (its prevote was seen on the
+			// actions channel), so this one cannot collide with it in the 1-slot result channel.
+			hash = sc.dupRule.prevote(phs)
+			if hash == sc.firstPv {
+				hash = "dup-" + sc.firstPv
+			}
+			answer, sc.dupGiven = true, true
 		}
 	}
 	s.mu.Unlock()
@@ -644,6 +660,9 @@ func (s *e2Strategy) ChooseProposedBlock(ctx context.Context, phs []tmconsensus.
 		h, r = sc.h, sc.r
 		sc.chooseCalls++
 		hash = sc.prevoteRule.prevote(phs)
+		if !sc.pvAnswered {
+			sc.pvAnswered, sc.firstPv = true, hash
+		}
 	}
 	s.mu.Unlock()
 	s.log.add(e2Ev{K: e2kStratCall, Sub: "choose", H: h, R: r, ID: id, Hashes: e2phHashes(phs)})
